@@ -418,11 +418,14 @@ func parseContractFile(path string, extra ...string) (*ContractFile, error) {
 			}
 			continue
 		}
+		atProps := cur.Props
+		if strings.HasPrefix(fields[0], "atcall[") && strings.HasSuffix(fields[0], "]") {
+			// atcall[Cxx,Cyy] CALLEE EXPR: the assertion belongs to these properties only
+			atProps = strings.FieldsFunc(fields[0][len("atcall["):len(fields[0])-1], func(r rune) bool { return r == ',' || r == ' ' })
+			fields[0] = "atcall"
+		}
 		switch fields[0] {
 		case "atcall":
-			// atcall[Cxx] CALLEE EXPR
-			hdr := fields[0]
-			_ = hdr
 			if len(fields) < 3 {
 				return nil, fmt.Errorf("line %d: atcall CALLEE EXPR", ln)
 			}
@@ -431,7 +434,7 @@ func parseContractFile(path string, extra ...string) (*ContractFile, error) {
 			if err != nil {
 				return nil, fmt.Errorf("line %d: atcall: %v", ln, err)
 			}
-			cur.AtCall = append(cur.AtCall, &AtCall{Callee: fields[1], Expr: &CExpr{Text: rest, ast: e, Line: ln, Props: cur.Props}})
+			cur.AtCall = append(cur.AtCall, &AtCall{Callee: fields[1], Expr: &CExpr{Text: rest, ast: e, Line: ln, Props: atProps}})
 		case "ghostset":
 			// ghostset NAME EXPR: after a call the ghost NAME has value EXPR (old(NAME) = before the call)
 			if len(fields) < 3 {
